@@ -18,7 +18,8 @@ RULE = ('Series pairs x window x penalty x psi x max_step x inner distance x ndi
         'max_step, starts/ends in the psi-relaxed corners (custom start: ends at the requested cell), accumulated cost '
         '(penalties included, transformed) equals the distance reported by the same call and the reference distance. '
         'Non-trivial: lengths >= 3 and the path has a non-diagonal step or is psi-trimmed; the class "several optimal '
-        'paths" (brute-force count > 1, small cases) is tracked.')
+        'paths" (brute-force count > 1, small cases) is tracked.'
+        ' Also dtw.warping_path_penalty (both engines: the path must be optimal for the given penalty, the reported value = distance + penalty_post per non-diagonal step) and dtw.warping_amount.')
 ASSUMPTIONS = ['finite doubles |x| <= 1e3, lengths <= 12, ndim <= 2', 'no max_dist (paths through pruned matrices are not '
                'part of the property)', 'dtw.warp is exercised without psi (it divides by the per-target count)']
 
